@@ -498,13 +498,20 @@ THREAD_SCENARIOS = {"take_T": [("stress", "take1", 60000), ("stress", "take2", 6
                     "combine2_T": [("block", "combine2", 1), ("stress", "combine2", 60000)], "combine3_T": [("block", "combine2", 1), ("stress", "combine2", 60000)]}
 
 
+SEARCH_STATS = {}   # (template, property) -> what the bounded stand-in explored when it found nothing
+
+
 def thread_search(template, pid, secs):
+    st = SEARCH_STATS.setdefault((template, pid), {"scenarios": [], "runs": 0, "runs_deepest_level": 0, "kind": "real-thread scenarios (block = one deterministic schedule, stress = repeated barrier-released race)"})
     for (mode, sc, runs) in THREAD_SCENARIOS[template]:
         try:
             p = subprocess.run([REPLAY, "threads", mode, sc, str(runs)], capture_output=True, text=True, timeout=secs)
             d = json.loads(p.stdout)
         except Exception:
             continue
+        st["scenarios"].append(f"threads {mode} {sc}")
+        st["runs"] += d.get("runs", 0)
+        st["runs_deepest_level"] += d.get("runs", 0) if mode == "block" else 1   # repeated races are not distinct cases
         if any(v["property"] == pid for v in d.get("violations", [])):
             d["scenario"] = f"threads {mode} {sc}"
             d["tape"] = []
@@ -535,6 +542,7 @@ def replay_search(template, pid, secs=900):
     scs = list(SCENARIOS.get(template, []))
     if pid in ("C14", "C06", "C15", "C09", "C11", "C07"):
         scs += PULL_SCENARIOS.get(template, [])
+    st = SEARCH_STATS.setdefault((template, pid), {"scenarios": [], "runs": 0, "runs_deepest_level": 0, "max_len": 10, "kind": "exhaustive enumeration of decision tapes (iterative deepening) of the most general conformant peers against the real crate"})
     for sc in scs:
         try:
             p = subprocess.run([REPLAY, "search", sc, "--property", pid, "--len", "10", "--budget", "1500000"] + excl, capture_output=True, text=True, timeout=secs)
@@ -544,6 +552,9 @@ def replay_search(template, pid, secs=900):
         if d.get("tape") is not None:
             d["scenario"] = sc
             return d
+        st["scenarios"].append(sc + (" (budget exhausted before length 10)" if d.get("budget_exhausted") else ""))
+        st["runs"] += d.get("runs", 0)
+        st["runs_deepest_level"] += d.get("runs_deepest_level", 0)
     return None
 
 
@@ -615,7 +626,7 @@ def check_property(pid, tier, res):
     return relevant, undecided, viol, known, time.time() - t0
 
 
-def write_evidence(pid, tier, res, relevant, viol, known, wall):
+def write_evidence(pid, tier, res, relevant, viol, known, wall, bounded=None):
     os.makedirs(EVID, exist_ok=True)
     findings = load_findings().get("findings", [])
     obligations = discharged = 0
@@ -663,6 +674,17 @@ def write_evidence(pid, tier, res, relevant, viol, known, wall):
         "assumptions": FIXED_ASSUMPTIONS + ["external_body / assumed items in the woven files: " + ", ".join(sorted(assumed))],
         "wall_s": round(wall, 2), "violations": len(viol),
     }
+    if bounded:
+        # some unit of this property could not be decided by the verifier on this tree: the run as a whole is an
+        # exploration (the discharged obligations of the other units are still reported above)
+        ev["level"] = "exploration"
+        ev["coverage"].update({
+            "evaluations": sum(x.get("runs", 0) for x in bounded),
+            "distinct_nontrivial": sum(x.get("runs_deepest_level", 0) for x in bounded),
+            "rule": "bounded stand-in for the units the verifier could not decide: every decision tape of the puppet peers up to length 10 (or the stated run budget) is run once against the real crate with the protocol and functional monitors on; distinct_nontrivial counts the tapes of the deepest completed length only (each is a distinct maximal decision sequence and drives at least the subscription and one peer decision); for real-thread scenarios a deterministic schedule counts once and a repeated race counts as one case",
+            "bounded_units": bounded,
+        })
+        ev["coverage"]["samples"] = [{"unit": x["template"], "scenarios": x.get("scenarios"), "runs": x.get("runs"), "max_len": x.get("max_len")} for x in bounded] + ev["coverage"]["samples"]
     json.dump(ev, open(os.path.join(EVID, pid + ".json"), "w"), indent=1)
 
 
@@ -729,7 +751,21 @@ def main():
                            "level": "bounded exploration, not a proof", "failing_input": {"scenario": cex["scenario"], "tape": cex["tape"], "violations": cex["violations"], "history": cex["history"],
                            "replay_cmd": cex.get("replay_cmd") or f"{REPLAY} run {cex['scenario']} '{json.dumps(cex['tape'])}'"}}, open(path, "w"), indent=1)
                 print(f"VIOLATION property={a.property} replay={path}")
-        sys.exit(1 if hit else 2)
+        if hit:
+            sys.exit(1)
+        stats = [dict(SEARCH_STATS.get((t, a.property), {}), template=t, verifier_undecided_because=[u.get("why", "")[:300] for u in undecided if u["template"] == t][0]) for t in sorted({u["template"] for u in undecided})]
+        if all(x.get("scenarios") and x.get("runs_deepest_level", 0) >= 2 for x in stats):
+            # the stated bounded stand-in explored these units and found nothing: the property held on everything
+            # explored; this run's evidence is labelled exploration (bounded), never proof
+            for x in stats:
+                print(f"BOUNDED property={a.property} unit={x['template']}: verifier undecided; bounded stand-in found no violation in {x['runs']} runs over {x['scenarios']}", file=sys.stderr)
+            if not a.no_evidence:
+                write_evidence(a.property, a.tier, res, relevant, [], known, time.time() - t0, bounded=stats)
+            for (u, e, f) in {(id(f)): (u, e, f) for (u, e, f) in known}.values():
+                print(f"KNOWN-FINDING: property={a.property} {f.get('id','')} {f.get('what','')}")
+            print(f"OK property={a.property} tier={a.tier} (bounded for {[x['template'] for x in stats]}) wall={time.time()-t0:.1f}s")
+            sys.exit(0)
+        sys.exit(2)
     if not relevant:
         print(f"no unit carries obligations for {a.property}", file=sys.stderr)
         sys.exit(2)
